@@ -81,9 +81,21 @@ Lemma radd_ef j x : Epoch___radd__ fo (epg j) (VFloat x) = Epoch___add__ fo (epg
 Proof. rfl. Qed.
 Lemma radd_ei j n : Epoch___radd__ fo (epg j) (VInt n) = Epoch___add__ fo (epg j) (VInt n).
 Proof. rfl. Qed.
+(* the in-place forms return what the plain forms return (no state besides the result) *)
+Lemma bind_id (e : val) : bind e (fun s => s) = e.
+Proof. destruct e; reflexivity. Qed.
+Lemma iadd_ef j x : Epoch___iadd__ fo (epg j) (VFloat x) = Epoch___add__ fo (epg j) (VFloat x).
+Proof. transitivity (bind (Epoch___add__ fo (epg j) (VFloat x)) (fun s => s)); [rfl | apply bind_id]. Qed.
+Lemma iadd_ei j n : Epoch___iadd__ fo (epg j) (VInt n) = Epoch___add__ fo (epg j) (VInt n).
+Proof. transitivity (bind (Epoch___add__ fo (epg j) (VInt n)) (fun s => s)); [rfl | apply bind_id]. Qed.
+Lemma isub_ef j x : Epoch___isub__ fo (epg j) (VFloat x) = Epoch___sub__ fo (epg j) (VFloat x).
+Proof. transitivity (bind (Epoch___sub__ fo (epg j) (VFloat x)) (fun s => s)); [rfl | apply bind_id]. Qed.
+Lemma isub_ei j n : Epoch___isub__ fo (epg j) (VInt n) = Epoch___sub__ fo (epg j) (VInt n).
+Proof. transitivity (bind (Epoch___sub__ fo (epg j) (VInt n)) (fun s => s)); [rfl | apply bind_id]. Qed.
 Lemma add_type_error j v : not_comparable v ->
   Epoch___add__ fo (epg j) v = VErr TypeError /\ Epoch___radd__ fo (epg j) v = VErr TypeError /\
-  Epoch___sub__ fo (epg j) v = VErr TypeError.
+  Epoch___sub__ fo (epg j) v = VErr TypeError /\ Epoch___iadd__ fo (epg j) v = VErr TypeError /\
+  Epoch___isub__ fo (epg j) v = VErr TypeError.
 Proof. destruct v; cbn [not_comparable]; intro H; try contradiction; repeat split; rfl. Qed.
 
 End Generic.
